@@ -575,9 +575,25 @@ pub fn run(tier: &str, seed: u64) -> i32 {
                 }
             }
             for (total, p, q) in if tier == "thorough" {
-                vec![(2100usize, 5usize, 1029usize), (2100, 0, 1024), (2100, 1023, 2047), (4200, 100, 2148), (4200, 7, 4103), (8300, 3, 8195), (3000, 1, 2049), (1300, 0, 1025)]
+                {
+                    let mut v = vec![(2100usize, 5usize, 1029usize), (2100, 0, 1024), (2100, 1023, 2047), (4200, 100, 2148), (4200, 7, 4103), (8300, 3, 8195), (3000, 1, 2049), (1300, 0, 1025)];
+                    for total in [2048usize, 2049, 2560, 3072, 4096, 8192] {
+                        for p in [0usize, 5, 100, 513, 1000, 1023] {
+                            for m in 1..=3usize {
+                                if p + 1024 * m < total {
+                                    v.push((total, p, p + 1024 * m));
+                                }
+                            }
+                        }
+                    }
+                    for d in [256usize, 512, 2048, 4096] {
+                        v.push((2 * d + 40, 17, 17 + d));
+                    }
+                    v
+                }
             } else {
-                vec![(2100, 5, 1029), (4200, 100, 2148), (2100, 0, 2048)]
+                // batch lengths at and off the multiples of 2^10, pairs a multiple of 2^10 apart
+                vec![(2048, 5, 1029), (2048, 1000, 2024), (4096, 100, 2148), (4096, 7, 3079), (2560, 600, 1624), (3000, 1000, 2024), (2100, 100, 1124), (2100, 5, 1029)]
             } {
                 far.push((c, total, p, q));
             }
